@@ -430,12 +430,12 @@ class Dict(dict, base.Symbolic, pg_typing.CustomTyping):
         diff[k] = child_diff
     return diff
 
-  def seal(self, sealed: bool = True) -> 'Dict':
+  def sym_seal(self, is_seal: bool = True) -> 'Dict':
     """Seals or unseals current object from further modification."""
     for v in self.sym_values():
       if isinstance(v, base.Symbolic):
-        v.seal(sealed)
-    super().seal(sealed)
+        v.seal(is_seal)
+    super().sym_seal(is_seal)
     return self
 
   def sym_attr_field(
